@@ -9,10 +9,10 @@
 
   * `RStmts`, `RExpr`, … : "the same syntax, except that at any number of statement-list positions (at any depth, also
     inside function literals and `fn` statements) the left program has `x` where the right one has `y`, with
-    `Refines x y`" (`x`, `y` may differ from hole to hole).  Patterns — parameter lists, the left-hand sides of `:=`,
-    `=`, `op=` and of `for` — are required to be identical on the two sides.
-  * `wb β σ` : the state `σ` with the body of the function cell at address `a` replaced by `β a`; `Good β σ` : every
-    replaced body is `RStmts`-related to the original.  ("The two heaps are identical except for related function
+    `Refines x y`" (`x`, `y` may differ from hole to hole).  Every syntactic position is covered, patterns included
+    (parameter lists, the left-hand sides of `:=`, `=`, `op=` and of `for`).
+  * `wb β σ` : the state `σ` with the code (parameter patterns and body) of the function cell at address `a` replaced by
+    `β a`; `Good β σ` : every replaced code is related (`RExprs` / `RStmts`) to the original.  ("The two heaps are identical except for related function
     bodies" is `σ₂ = wb β σ₁ ∧ Good β σ₁`: same addresses, same sizes, same lists / objects / scopes / output.)
   * `Ev r g` : the left run has result `r`; if that is not a time-out, the right run `g` (a function of the fuel) yields,
     from some fuel on, the result `wbRes β' r` for some `β'` with `Good β' …` — the same value / error, in a state that
@@ -45,10 +45,14 @@ inductive RRaw : RawExpr → RawExpr → Prop
   | range {a a' b b' : Expr} : RExpr a a' → RExpr b b' → RRaw (.Range a b) (.Range a' b')
   | object {ps ps' : List PropItem} : RProps ps ps' → RRaw (.Object ps) (.Object ps')
   | prop {e e' : Expr} (n : List Char) (t : Bool) : RExpr e e' → RRaw (.Prop e n t) (.Prop e' n t)
-  | func (args : List Expr) (c : Bool) {ss ss' : List Stmt} : RStmts ss ss' → RRaw (.Func args c ss) (.Func args c ss')
+  | func {args args' : List Expr} (c : Bool) {ss ss' : List Stmt} : RExprs args args' → RStmts ss ss' →
+      RRaw (.Func args c ss) (.Func args' c ss')
   | call {f f' : Expr} {as as' : List ListItem} : RExpr f f' → RItems as as' → RRaw (.Call f as) (.Call f' as')
 inductive RExpr : Expr → Expr → Prop
   | mk {r r' : RawExpr} (l : Loc) : RRaw r r' → RExpr (.mk r l) (.mk r' l)
+inductive RExprs : List Expr → List Expr → Prop
+  | nil : RExprs [] []
+  | cons {e e' : Expr} {r r' : List Expr} : RExpr e e' → RExprs r r' → RExprs (e :: r) (e' :: r')
 inductive ROpt : Option Expr → Option Expr → Prop
   | none : ROpt none none
   | some {e e' : Expr} : RExpr e e' → ROpt (some e) (some e')
@@ -64,18 +68,19 @@ inductive RProps : List PropItem → List PropItem → Prop
 inductive RStmt : Stmt → Stmt → Prop
   | block {b b' : List Stmt} : RStmts b b' → RStmt (.Block b) (.Block b')
   | expr {e e' : Expr} : RExpr e e' → RStmt (.Expr e) (.Expr e')
-  | declare (lhs : Expr) {r r' : Expr} : RExpr r r' → RStmt (.Declare lhs r) (.Declare lhs r')
-  | assign (lhs : Expr) {r r' : Expr} : RExpr r r' → RStmt (.Assign lhs r) (.Assign lhs r')
-  | opAssign (lhs : Expr) (op : BinaryOp) (ol : Loc) {r r' : Expr} : RExpr r r' →
-      RStmt (.OpAssign lhs op ol r) (.OpAssign lhs op ol r')
+  | declare {l l' r r' : Expr} : RExpr l l' → RExpr r r' → RStmt (.Declare l r) (.Declare l' r')
+  | assign {l l' r r' : Expr} : RExpr l l' → RExpr r r' → RStmt (.Assign l r) (.Assign l' r')
+  | opAssign (op : BinaryOp) (ol : Loc) {l l' r r' : Expr} : RExpr l l' → RExpr r r' →
+      RStmt (.OpAssign l op ol r) (.OpAssign l' op ol r')
   | ifs {bs bs' : List Branch} {els els' : Option (List Stmt)} : RBranches bs bs' → ROptStmts els els' →
       RStmt (.If bs els) (.If bs' els')
   | whileS {c c' : Expr} {ss ss' : List Stmt} : RExpr c c' → RStmts ss ss' → RStmt (.While c ss) (.While c' ss')
-  | forS (lhs : Expr) {i i' : Expr} {ss ss' : List Stmt} : RExpr i i' → RStmts ss ss' → RStmt (.For lhs i ss) (.For lhs i' ss')
+  | forS {l l' i i' : Expr} {ss ss' : List Stmt} : RExpr l l' → RExpr i i' → RStmts ss ss' →
+      RStmt (.For l i ss) (.For l' i' ss')
   | brk (l : Loc) : RStmt (.Break l) (.Break l)
   | cont (l : Loc) : RStmt (.Continue l) (.Continue l)
-  | func (name : List Char) (nl : Loc) (args : List Expr) (c : Bool) {ss ss' : List Stmt} : RStmts ss ss' →
-      RStmt (.Func name nl args c ss) (.Func name nl args c ss')
+  | func (name : List Char) (nl : Loc) {args args' : List Expr} (c : Bool) {ss ss' : List Stmt} : RExprs args args' →
+      RStmts ss ss' → RStmt (.Func name nl args c ss) (.Func name nl args' c ss')
   | ret (l : Loc) {e e' : Expr} : RExpr e e' → RStmt (.Return l e) (.Return l e')
 /-- statement lists: related statement by statement, or — the hole — any `x`, `y` with `Refines x y` -/
 inductive RStmts : List Stmt → List Stmt → Prop
@@ -105,10 +110,13 @@ theorem RRaw.refl : (r : RawExpr) → RRaw r r
   | .Range a b => .range (RExpr.refl a) (RExpr.refl b)
   | .Object ps => .object (RProps.refl ps)
   | .Prop e n t => .prop n t (RExpr.refl e)
-  | .Func args c ss => .func args c (RStmts.refl ss)
+  | .Func args c ss => .func c (RExprs.refl args) (RStmts.refl ss)
   | .Call f as => .call (RExpr.refl f) (RItems.refl as)
 theorem RExpr.refl : (e : Expr) → RExpr e e
   | .mk r l => .mk l (RRaw.refl r)
+theorem RExprs.refl : (l : List Expr) → RExprs l l
+  | [] => .nil
+  | e :: r => .cons (RExpr.refl e) (RExprs.refl r)
 theorem ROpt.refl : (e : Option Expr) → ROpt e e
   | none => .none
   | some e => .some (RExpr.refl e)
@@ -122,15 +130,15 @@ theorem RProps.refl : (l : List PropItem) → RProps l l
 theorem RStmt.refl : (s : Stmt) → RStmt s s
   | .Block b => .block (RStmts.refl b)
   | .Expr e => .expr (RExpr.refl e)
-  | .Declare l r => .declare l (RExpr.refl r)
-  | .Assign l r => .assign l (RExpr.refl r)
-  | .OpAssign l op ol r => .opAssign l op ol (RExpr.refl r)
+  | .Declare l r => .declare (RExpr.refl l) (RExpr.refl r)
+  | .Assign l r => .assign (RExpr.refl l) (RExpr.refl r)
+  | .OpAssign l op ol r => .opAssign op ol (RExpr.refl l) (RExpr.refl r)
   | .If bs els => .ifs (RBranches.refl bs) (ROptStmts.refl els)
   | .While c ss => .whileS (RExpr.refl c) (RStmts.refl ss)
-  | .For l i ss => .forS l (RExpr.refl i) (RStmts.refl ss)
+  | .For l i ss => .forS (RExpr.refl l) (RExpr.refl i) (RStmts.refl ss)
   | .Break l => .brk l
   | .Continue l => .cont l
-  | .Func name nl args c ss => .func name nl args c (RStmts.refl ss)
+  | .Func name nl args c ss => .func name nl c (RExprs.refl args) (RStmts.refl ss)
   | .Return l e => .ret l (RExpr.refl e)
 /-- built from `nil` / `cons` only -/
 theorem RStmts.refl : (l : List Stmt) → RStmts l l
@@ -146,91 +154,97 @@ end
 
 /-! ### the action on states -/
 
-/-- the function record with another body -/
-def setBody (b : List Stmt) (fr : FuncRec) : FuncRec := ⟨fr.name, fr.args, fr.collect, b, fr.closure⟩
+/-- the code of a function: its parameter patterns and its body -/
+abbrev Code := List Expr × List Stmt
+/-- a replacement code for every address -/
+abbrev Repl := Addr → Code
 
-def wbCell (β : Addr → List Stmt) (a : Addr) : Cell → Cell
-  | .func fr => .func (setBody (β a) fr)
+/-- the function record with other code -/
+def setCode (c : Code) (fr : FuncRec) : FuncRec := ⟨fr.name, c.1, fr.collect, c.2, fr.closure⟩
+
+def wbCell (β : Repl) (a : Addr) : Cell → Cell
+  | .func fr => .func (setCode (β a) fr)
   | .list xs => .list xs
   | .obj m => .obj m
   | .scope m => .scope m
 
-/-- `σ` with the body of every function cell replaced: the cell at address `a` gets the body `β a` -/
-def wb (β : Addr → List Stmt) (σ : State) : State := ⟨σ.heap.mapIdx (wbCell β), σ.out⟩
+/-- `σ` with the code of every function cell replaced: the cell at address `a` gets the patterns and the body `β a` -/
+def wb (β : Repl) (σ : State) : State := ⟨σ.heap.mapIdx (wbCell β), σ.out⟩
 
-/-- every replaced body is related to the original one -/
-def Good (β : Addr → List Stmt) (σ : State) : Prop := ∀ a fr, σ.getFunc a = some fr → RStmts fr.stmts (β a)
+/-- every replaced code is related to the original one -/
+def Good (β : Repl) (σ : State) : Prop :=
+  ∀ a fr, σ.getFunc a = some fr → RExprs fr.args (β a).1 ∧ RStmts fr.stmts (β a).2
 
-def wbRes {α} (β : Addr → List Stmt) : Res α → Res α
+def wbRes {α} (β : Repl) : Res α → Res α
   | .ok a σ => .ok a (wb β σ)
   | .err e σ => .err e (wb β σ)
   | .crash w σ => .crash w (wb β σ)
   | .timeout => .timeout
 
-def GoodRes {α} (β : Addr → List Stmt) : Res α → Prop
+def GoodRes {α} (β : Repl) : Res α → Prop
   | .ok _ σ => Good β σ
   | _ => True
 
-@[simp] theorem size_wb (β : Addr → List Stmt) (σ : State) : (wb β σ).heap.size = σ.heap.size := by simp [wb]
-@[simp] theorem out_wb (β : Addr → List Stmt) (σ : State) : (wb β σ).out = σ.out := rfl
+@[simp] theorem size_wb (β : Repl) (σ : State) : (wb β σ).heap.size = σ.heap.size := by simp [wb]
+@[simp] theorem out_wb (β : Repl) (σ : State) : (wb β σ).out = σ.out := rfl
 
-theorem heap_wb (β : Addr → List Stmt) (σ : State) (a : Addr) : (wb β σ).heap[a]? = (σ.heap[a]?).map (wbCell β a) := by
+theorem heap_wb (β : Repl) (σ : State) (a : Addr) : (wb β σ).heap[a]? = (σ.heap[a]?).map (wbCell β a) := by
   simp [wb]
 
-@[simp] theorem getList_wb (β : Addr → List Stmt) (σ : State) (a : Addr) : (wb β σ).getList a = σ.getList a := by
+@[simp] theorem getList_wb (β : Repl) (σ : State) (a : Addr) : (wb β σ).getList a = σ.getList a := by
   unfold State.getList; rw [heap_wb]
   cases σ.heap[a]? with
   | none => rfl
   | some c => cases c <;> rfl
 
-@[simp] theorem getObj_wb (β : Addr → List Stmt) (σ : State) (a : Addr) : (wb β σ).getObj a = σ.getObj a := by
+@[simp] theorem getObj_wb (β : Repl) (σ : State) (a : Addr) : (wb β σ).getObj a = σ.getObj a := by
   unfold State.getObj; rw [heap_wb]
   cases σ.heap[a]? with
   | none => rfl
   | some c => cases c <;> rfl
 
-@[simp] theorem getScope_wb (β : Addr → List Stmt) (σ : State) (a : Addr) : (wb β σ).getScope a = σ.getScope a := by
+@[simp] theorem getScope_wb (β : Repl) (σ : State) (a : Addr) : (wb β σ).getScope a = σ.getScope a := by
   unfold State.getScope; rw [heap_wb]
   cases σ.heap[a]? with
   | none => rfl
   | some c => cases c <;> rfl
 
-theorem getFunc_wb (β : Addr → List Stmt) (σ : State) (a : Addr) : (wb β σ).getFunc a = (σ.getFunc a).map (setBody (β a)) := by
+theorem getFunc_wb (β : Repl) (σ : State) (a : Addr) : (wb β σ).getFunc a = (σ.getFunc a).map (setCode (β a)) := by
   unfold State.getFunc; rw [heap_wb]
   cases σ.heap[a]? with
   | none => rfl
   | some c => cases c <;> rfl
 
-theorem allocS_wb (β : Addr → List Stmt) (σ : State) (c : Cell) :
+theorem allocS_wb (β : Repl) (σ : State) (c : Cell) :
     allocS (wb β σ) (wbCell β σ.heap.size c) = wb β (allocS σ c) := by
   simp [allocS, State.alloc, wb, Array.mapIdx_push]
 
-@[simp] theorem allocS_wb_list (β : Addr → List Stmt) (σ : State) (xs : List SVal) :
+@[simp] theorem allocS_wb_list (β : Repl) (σ : State) (xs : List SVal) :
     allocS (wb β σ) (.list xs) = wb β (allocS σ (.list xs)) := allocS_wb β σ (.list xs)
-@[simp] theorem allocS_wb_obj (β : Addr → List Stmt) (σ : State) (m : ObjMap) :
+@[simp] theorem allocS_wb_obj (β : Repl) (σ : State) (m : ObjMap) :
     allocS (wb β σ) (.obj m) = wb β (allocS σ (.obj m)) := allocS_wb β σ (.obj m)
-@[simp] theorem allocS_wb_scope (β : Addr → List Stmt) (σ : State) (m : ScopeMap) :
+@[simp] theorem allocS_wb_scope (β : Repl) (σ : State) (m : ScopeMap) :
     allocS (wb β σ) (.scope m) = wb β (allocS σ (.scope m)) := allocS_wb β σ (.scope m)
 
-theorem set_wb (β : Addr → List Stmt) (σ : State) (a : Addr) (c : Cell) :
+theorem set_wb (β : Repl) (σ : State) (a : Addr) (c : Cell) :
     (wb β σ).set a (wbCell β a c) = wb β (σ.set a c) := by
   simp [State.set, wb, Array.mapIdx_setIfInBounds]
 
-@[simp] theorem set_wb_list (β : Addr → List Stmt) (σ : State) (a : Addr) (xs : List SVal) :
+@[simp] theorem set_wb_list (β : Repl) (σ : State) (a : Addr) (xs : List SVal) :
     (wb β σ).set a (.list xs) = wb β (σ.set a (.list xs)) := set_wb β σ a (.list xs)
-@[simp] theorem set_wb_obj (β : Addr → List Stmt) (σ : State) (a : Addr) (m : ObjMap) :
+@[simp] theorem set_wb_obj (β : Repl) (σ : State) (a : Addr) (m : ObjMap) :
     (wb β σ).set a (.obj m) = wb β (σ.set a (.obj m)) := set_wb β σ a (.obj m)
-@[simp] theorem set_wb_scope (β : Addr → List Stmt) (σ : State) (a : Addr) (m : ScopeMap) :
+@[simp] theorem set_wb_scope (β : Repl) (σ : State) (a : Addr) (m : ScopeMap) :
     (wb β σ).set a (.scope m) = wb β (σ.set a (.scope m)) := set_wb β σ a (.scope m)
 
-@[simp] theorem print_wb (β : Addr → List Stmt) (σ : State) (l : List Char) : (wb β σ).print l = wb β (σ.print l) := rfl
+@[simp] theorem print_wb (β : Repl) (σ : State) (l : List Char) : (wb β σ).print l = wb β (σ.print l) := rfl
 
-/-- `β` with the body for address `k` set to `b` -/
-def upd (β : Addr → List Stmt) (k : Addr) (b : List Stmt) : Addr → List Stmt := fun a => if a = k then b else β a
+/-- `β` with the code for address `k` set to `b` -/
+def upd (β : Repl) (k : Addr) (b : Code) : Repl := fun a => if a = k then b else β a
 
 /-- allocating a function cell: the new address gets its own replacement body -/
-theorem allocS_wb_func (β : Addr → List Stmt) (σ : State) (fr : FuncRec) (b : List Stmt) :
-    allocS (wb β σ) (.func (setBody b fr)) = wb (upd β σ.heap.size b) (allocS σ (.func fr)) := by
+theorem allocS_wb_func (β : Repl) (σ : State) (fr : FuncRec) (b : Code) :
+    allocS (wb β σ) (.func (setCode b fr)) = wb (upd β σ.heap.size b) (allocS σ (.func fr)) := by
   have h1 : σ.heap.mapIdx (wbCell (upd β σ.heap.size b)) = σ.heap.mapIdx (wbCell β) := by
     apply Array.ext_getElem?
     intro i
@@ -246,11 +260,11 @@ theorem allocS_wb_func (β : Addr → List Stmt) (σ : State) (fr : FuncRec) (b 
 
 /-! ### `Good` is kept by every write -/
 
-theorem good_init (β : Addr → List Stmt) : Good β State.init := by
+theorem good_init (β : Repl) : Good β State.init := by
   intro a fr h
   simp [State.getFunc, State.init] at h
 
-theorem good_allocS {β : Addr → List Stmt} {σ : State} (h : Good β σ) (c : Cell) (hc : ∀ fr, c ≠ .func fr) : Good β (allocS σ c) := by
+theorem good_allocS {β : Repl} {σ : State} (h : Good β σ) (c : Cell) (hc : ∀ fr, c ≠ .func fr) : Good β (allocS σ c) := by
   intro a fr ha
   have ha' := getFunc_heap.mp ha
   by_cases hlt : a < σ.heap.size
@@ -263,15 +277,15 @@ theorem good_allocS {β : Addr → List Stmt} {σ : State} (h : Good β σ) (c :
     rw [allocS, alloc_new] at ha'
     exact absurd (by cases ha'; rfl) (hc fr)
 
-theorem good_allocS_list {β : Addr → List Stmt} {σ : State} (xs : List SVal) (h : Good β σ) : Good β (allocS σ (.list xs)) :=
+theorem good_allocS_list {β : Repl} {σ : State} (xs : List SVal) (h : Good β σ) : Good β (allocS σ (.list xs)) :=
   good_allocS h _ (fun _ e => by cases e)
-theorem good_allocS_obj {β : Addr → List Stmt} {σ : State} (m : ObjMap) (h : Good β σ) : Good β (allocS σ (.obj m)) :=
+theorem good_allocS_obj {β : Repl} {σ : State} (m : ObjMap) (h : Good β σ) : Good β (allocS σ (.obj m)) :=
   good_allocS h _ (fun _ e => by cases e)
-theorem good_allocS_scope {β : Addr → List Stmt} {σ : State} (m : ScopeMap) (h : Good β σ) : Good β (allocS σ (.scope m)) :=
+theorem good_allocS_scope {β : Repl} {σ : State} (m : ScopeMap) (h : Good β σ) : Good β (allocS σ (.scope m)) :=
   good_allocS h _ (fun _ e => by cases e)
 
-theorem good_allocS_func {β : Addr → List Stmt} {σ : State} (fr : FuncRec) {b : List Stmt} (h : Good β σ)
-    (hb : RStmts fr.stmts b) : Good (upd β σ.heap.size b) (allocS σ (.func fr)) := by
+theorem good_allocS_func {β : Repl} {σ : State} (fr : FuncRec) {b : Code} (h : Good β σ)
+    (hargs : RExprs fr.args b.1) (hb : RStmts fr.stmts b.2) : Good (upd β σ.heap.size b) (allocS σ (.func fr)) := by
   intro a fr' ha
   have ha' := getFunc_heap.mp ha
   by_cases hlt : a < σ.heap.size
@@ -285,9 +299,9 @@ theorem good_allocS_func {β : Addr → List Stmt} {σ : State} (fr : FuncRec) {
     rw [allocS, alloc_new] at ha'
     have : fr' = fr := by cases ha'; rfl
     subst this
-    simpa [upd] using hb
+    simpa [upd] using And.intro hargs hb
 
-theorem good_set {β : Addr → List Stmt} {σ : State} (h : Good β σ) (a : Addr) (c : Cell) (hc : ∀ fr, c ≠ .func fr) :
+theorem good_set {β : Repl} {σ : State} (h : Good β σ) (a : Addr) (c : Cell) (hc : ∀ fr, c ≠ .func fr) :
     Good β (σ.set a c) := by
   intro b fr hb
   have hb' := getFunc_heap.mp hb
@@ -300,13 +314,13 @@ theorem good_set {β : Addr → List Stmt} {σ : State} (h : Good β σ) (a : Ad
   · rw [set_other σ a c hba] at hb'
     exact h b fr (getFunc_heap.mpr hb')
 
-theorem good_set_list {β : Addr → List Stmt} {σ : State} (a : Addr) (xs : List SVal) (h : Good β σ) : Good β (σ.set a (.list xs)) :=
+theorem good_set_list {β : Repl} {σ : State} (a : Addr) (xs : List SVal) (h : Good β σ) : Good β (σ.set a (.list xs)) :=
   good_set h a _ (fun _ e => by cases e)
-theorem good_set_obj {β : Addr → List Stmt} {σ : State} (a : Addr) (m : ObjMap) (h : Good β σ) : Good β (σ.set a (.obj m)) :=
+theorem good_set_obj {β : Repl} {σ : State} (a : Addr) (m : ObjMap) (h : Good β σ) : Good β (σ.set a (.obj m)) :=
   good_set h a _ (fun _ e => by cases e)
-theorem good_set_scope {β : Addr → List Stmt} {σ : State} (a : Addr) (m : ScopeMap) (h : Good β σ) : Good β (σ.set a (.scope m)) :=
+theorem good_set_scope {β : Repl} {σ : State} (a : Addr) (m : ScopeMap) (h : Good β σ) : Good β (σ.set a (.scope m)) :=
   good_set h a _ (fun _ e => by cases e)
-theorem good_print {β : Addr → List Stmt} {σ : State} (l : List Char) (h : Good β σ) : Good β (σ.print l) := h
+theorem good_print {β : Repl} {σ : State} (l : List Char) (h : Good β σ) : Good β (σ.print l) := h
 
 /-! ### `Ev`: the right run eventually yields the left result, up to function bodies -/
 
@@ -320,14 +334,14 @@ variable {α γ : Type}
 
 theorem timeout {g : Nat → Res α} : Ev (.timeout : Res α) g := fun h => absurd rfl h
 
-theorem of_eq {β : Addr → List Stmt} {r : Res α} {g : Nat → Res α} (h : ∀ m, g m = wbRes β r) (hg : GoodRes β r) : Ev r g :=
+theorem of_eq {β : Repl} {r : Res α} {g : Nat → Res α} (h : ∀ m, g m = wbRes β r) (hg : GoodRes β r) : Ev r g :=
   fun _ => ⟨β, hg, 0, fun m _ => h m⟩
 
-theorem ok {β : Addr → List Stmt} {a : α} {σ : State} (hg : Good β σ) : Ev (.ok a σ) (fun _ => .ok a (wb β σ)) :=
+theorem ok {β : Repl} {a : α} {σ : State} (hg : Good β σ) : Ev (.ok a σ) (fun _ => .ok a (wb β σ)) :=
   of_eq (β := β) (fun _ => rfl) hg
 
 /-- an operation that commutes with `wb β` at every fuel and is monotone in the fuel -/
-theorem of_exact {β : Addr → List Stmt} {f : Nat → State → Res α} {σ : State} (n : Nat)
+theorem of_exact {β : Repl} {f : Nat → State → Res α} {σ : State} (n : Nat)
     (hmono : ∀ k, Res.Le (f k σ) (f (k + 1) σ)) (heq : ∀ m, f m (wb β σ) = wbRes β (f m σ))
     (hg : ∀ m, GoodRes β (f m σ)) : Ev (f n σ) (fun m => f m (wb β σ)) := by
   intro hne
@@ -394,7 +408,7 @@ end Ev
 
 /-! ### the primitives do not read function bodies -/
 
-theorem eq_wb (β : Addr → List Stmt) (n : Nat) :
+theorem eq_wb (β : Repl) (n : Nat) :
     (∀ σ a b, eqVal n (wb β σ) a b = eqVal n σ a b) ∧
     (∀ σ i xs ys, eqItems n (wb β σ) i xs ys = eqItems n σ i xs ys) ∧
     (∀ σ xs ys, eqProps n (wb β σ) xs ys = eqProps n σ xs ys) := by
@@ -411,10 +425,10 @@ theorem eq_wb (β : Addr → List Stmt) (n : Nat) :
     · unfold eqItems; simp only [ihV, ihI]
     · unfold eqProps; simp only [ihV, ihP]
 
-@[simp] theorem eqVal_wb (β : Addr → List Stmt) (n : Nat) (σ : State) (a b : Val) : eqVal n (wb β σ) a b = eqVal n σ a b :=
+@[simp] theorem eqVal_wb (β : Repl) (n : Nat) (σ : State) (a b : Val) : eqVal n (wb β σ) a b = eqVal n σ a b :=
   (eq_wb β n).1 σ a b
 
-theorem render_wb_all (β : Addr → List Stmt) (n : Nat) :
+theorem render_wb_all (β : Repl) (n : Nat) :
     (∀ σ held v, render n (wb β σ) held v = render n σ held v) ∧
     (∀ σ held items, renderItems n (wb β σ) held items = renderItems n σ held items) ∧
     (∀ σ held props, renderProps n (wb β σ) held props = renderProps n σ held props) := by
@@ -437,23 +451,23 @@ theorem render_wb_all (β : Addr → List Stmt) (n : Nat) :
     · unfold renderItems; simp only [ihV, ihI]
     · unfold renderProps; simp only [ihV, ihP]
 
-@[simp] theorem render_wb (β : Addr → List Stmt) (n : Nat) (σ : State) (held : List Addr) (v : Val) :
+@[simp] theorem render_wb (β : Repl) (n : Nat) (σ : State) (held : List Addr) (v : Val) :
     render n (wb β σ) held v = render n σ held v := (render_wb_all β n).1 σ held v
 
-@[simp] theorem toPairs_wb (β : Addr → List Stmt) (σ : State) (v : Val) : toPairs (wb β σ) v = toPairs σ v := by
+@[simp] theorem toPairs_wb (β : Repl) (σ : State) (v : Val) : toPairs (wb β σ) v = toPairs σ v := by
   unfold toPairs; simp only [getList_wb, getObj_wb]
 
 /-- an exact-fuel commutation fact together with the invariant -/
-def Comm {α} (β : Addr → List Stmt) (r' r : Res α) : Prop := r' = wbRes β r ∧ GoodRes β r
+def Comm {α} (β : Repl) (r' r : Res α) : Prop := r' = wbRes β r ∧ GoodRes β r
 
-theorem Comm.of_eq {α} {β : Addr → List Stmt} {r' r : Res α} (h : r' = wbRes β r) (hg : GoodRes β r) : Comm β r' r := ⟨h, hg⟩
+theorem Comm.of_eq {α} {β : Repl} {r' r : Res α} (h : r' = wbRes β r) (hg : GoodRes β r) : Comm β r' r := ⟨h, hg⟩
 
-theorem arith_comm {β : Addr → List Stmt} (op : BinaryOp) (loc : Loc) (a b : Int) {σ : State} (hg : Good β σ) :
+theorem arith_comm {β : Repl} (op : BinaryOp) (loc : Loc) (a b : Int) {σ : State} (hg : Good β σ) :
     Comm β (arith op loc a b (wb β σ)) (arith op loc a b σ) := by
   unfold arith
   cases op <;> simp only [] <;> (repeat' split) <;> exact Comm.of_eq rfl (by first | exact hg | trivial)
 
-theorem applyBinOp_comm {β : Addr → List Stmt} (n : Nat) (op : BinaryOp) (loc : Loc) (a b : Val) {σ : State} (hg : Good β σ) :
+theorem applyBinOp_comm {β : Repl} (n : Nat) (op : BinaryOp) (loc : Loc) (a b : Val) {σ : State} (hg : Good β σ) :
     Comm β (applyBinOp n (wb β σ) op loc a b) (applyBinOp n σ op loc a b) := by
   unfold applyBinOp
   cases op <;> simp only [eqVal_wb, getList_wb, alloc_pair, allocS_wb_list, size_wb] <;> (repeat' split) <;>
@@ -461,13 +475,13 @@ theorem applyBinOp_comm {β : Addr → List Stmt} (n : Nat) (op : BinaryOp) (loc
       | exact arith_comm _ _ _ _ hg
       | exact Comm.of_eq rfl (by first | exact hg | trivial | exact good_allocS_list _ hg)
 
-theorem callBuiltin_comm {β : Addr → List Stmt} (n : Nat) (f : BuiltinId) (this : Option SVal) (args : List SVal) {σ : State}
+theorem callBuiltin_comm {β : Repl} (n : Nat) (f : BuiltinId) (this : Option SVal) (args : List SVal) {σ : State}
     (hg : Good β σ) : Comm β (callBuiltin n (wb β σ) f this args) (callBuiltin n σ f this args) := by
   unfold callBuiltin
   cases f <;> simp only [render_wb, print_wb] <;> (repeat' split) <;>
     exact Comm.of_eq rfl (by first | exact hg | trivial | exact good_print _ hg)
 
-theorem opAssignValue_comm {β : Addr → List Stmt} (n : Nat) (cur rhs : SVal) (op : Option (BinaryOp × Loc)) {σ : State}
+theorem opAssignValue_comm {β : Repl} (n : Nat) (cur rhs : SVal) (op : Option (BinaryOp × Loc)) {σ : State}
     (hg : Good β σ) : Comm β (opAssignValue n (wb β σ) cur rhs op) (opAssignValue n σ cur rhs op) := by
   unfold opAssignValue
   split
@@ -477,21 +491,122 @@ theorem opAssignValue_comm {β : Addr → List Stmt} (n : Nat) (cur rhs : SVal) 
     cases hr : applyBinOp n σ ‹BinaryOp› ‹Loc› cur.v rhs.v <;> rw [hr] at h2 <;>
       exact Comm.of_eq rfl (by first | exact h2 | trivial)
 
-theorem validateArgsRes_comm {β : Addr → List Stmt} (n : Nat) (args : List Expr) {σ : State} (hg : Good β σ) :
-    Comm β (validateArgsRes n args (wb β σ)) (validateArgsRes n args σ) := by
+/-! ### parameter validation looks only at the shape of the patterns -/
+
+theorem RExprs.length_eq : ∀ {a a' : List Expr}, RExprs a a' → a'.length = a.length := by
+  intro a
+  induction a with
+  | nil => intro a' h; cases h; rfl
+  | cons e r ih => intro a' h; cases h with | cons he hr => simp [ih hr]
+
+theorem RExprs.append : ∀ {a a' b b' : List Expr}, RExprs a a' → RExprs b b' → RExprs (a ++ b) (a' ++ b') := by
+  intro a
+  induction a with
+  | nil => intro a' b b' h1 h2; cases h1; exact h2
+  | cons e r ih => intro a' b b' h1 h2; cases h1 with | cons he hr => exact .cons he (ih hr h2)
+
+theorem RExprs.reverse : ∀ {a a' : List Expr}, RExprs a a' → RExprs a.reverse a'.reverse := by
+  intro a
+  induction a with
+  | nil => intro a' h; cases h; exact .nil
+  | cons e r ih =>
+    intro a' h
+    cases h with
+    | cons he hr =>
+      simp only [List.reverse_cons]
+      exact RExprs.append (ih hr) (.cons he .nil)
+
+/-- equal errors, or related queues -/
+def QRel : Except Err (List Expr) → Except Err (List Expr) → Prop
+  | .error e, .error e' => e = e'
+  | .ok m, .ok m' => RExprs m m'
+  | _, _ => False
+
+theorem propsToQueue_rel (loc : Loc) : ∀ {ps ps' : List PropItem}, RProps ps ps' → ∀ {acc acc' : List Expr}, RExprs acc acc' →
+    QRel (propsToQueue loc ps acc) (propsToQueue loc ps' acc') := by
+  intro ps
+  induction ps with
+  | nil => intro ps' h acc acc' ha; cases h; simp only [propsToQueue, QRel]; exact ha.reverse
+  | cons p r ih =>
+    intro ps' h acc acc' ha
+    cases h with
+    | pair hn hv hr => simp only [propsToQueue]; exact ih hr (.cons hv ha)
+    | single s c he hr =>
+      simp only [propsToQueue]
+      cases s with
+      | true => simp [QRel]
+      | false => simp only [Bool.false_eq_true, if_false]; exact ih hr (.cons he ha)
+
+theorem itemsToQueue_rel (loc : Loc) : ∀ {is is' : List ListItem}, RItems is is' → ∀ {acc acc' : List Expr}, RExprs acc acc' →
+    QRel (itemsToQueue loc is acc) (itemsToQueue loc is' acc') := by
+  intro is
+  induction is with
+  | nil => intro is' h acc acc' ha; cases h; simp only [itemsToQueue, QRel]; exact ha.reverse
+  | cons p r ih =>
+    intro is' h acc acc' ha
+    cases h with
+    | cons s he hr =>
+      simp only [itemsToQueue]
+      cases s with
+      | true => simp [QRel]
+      | false => simp only [Bool.false_eq_true, if_false]; exact ih hr (.cons he ha)
+
+theorem validateArgs_rel (n : Nat) : ∀ {q q' : List Expr} (names : List (List Char × Loc)), RExprs q q' →
+    validateArgs n q' names = validateArgs n q names := by
+  induction n with
+  | zero => intro q q' names _; unfold validateArgs; rfl
+  | succ n ih =>
+    intro q q' names h
+    cases h with
+    | nil => rfl
+    | cons he hr =>
+      cases he with
+      | mk loc hraw =>
+        cases hraw with
+        | var x =>
+          unfold validateArgs
+          dsimp only []
+          split
+          · rfl
+          · split
+            · rfl
+            · exact ih _ hr
+        | object hps =>
+          rename_i ps ps'
+          unfold validateArgs
+          dsimp only []
+          have := propsToQueue_rel loc hps .nil
+          cases h1 : propsToQueue loc ps [] <;> cases h2 : propsToQueue loc ps' [] <;> rw [h1, h2] at this <;>
+            simp only [QRel] at this
+          · rw [this]
+          · exact ih _ (RExprs.append hr this)
+        | list c his =>
+          rename_i is is'
+          unfold validateArgs
+          dsimp only []
+          have := itemsToQueue_rel loc his .nil
+          cases h1 : itemsToQueue loc is [] <;> cases h2 : itemsToQueue loc is' [] <;> rw [h1, h2] at this <;>
+            simp only [QRel] at this
+          · rw [this]
+          · exact ih _ (RExprs.append hr this)
+        | _ => unfold validateArgs; rfl
+
+theorem validateArgsRes_comm {β : Repl} (n : Nat) {args args' : List Expr} (ha : RExprs args args') {σ : State} (hg : Good β σ) :
+    Comm β (validateArgsRes n args' (wb β σ)) (validateArgsRes n args σ) := by
   unfold validateArgsRes
+  rw [validateArgs_rel n [] ha]
   repeat' split
   all_goals exact Comm.of_eq rfl (by first | exact hg | trivial)
 
 /-! ### the scope walks and the name binder -/
 
-@[simp] theorem scopeGet_wb (β : Addr → List Stmt) (σ : State) (sc : List Addr) (k : List Char) :
+@[simp] theorem scopeGet_wb (β : Repl) (σ : State) (sc : List Addr) (k : List Char) :
     scopeGet (wb β σ) sc k = scopeGet σ sc k := by
   induction sc with
   | nil => rfl
   | cons a r ih => simp only [scopeGet, getScope_wb, ih]
 
-theorem scopeAssign_wb (β : Addr → List Stmt) (σ : State) (sc : List Addr) (k : List Char) (v : SVal) :
+theorem scopeAssign_wb (β : Repl) (σ : State) (sc : List Addr) (k : List Char) (v : SVal) :
     scopeAssign (wb β σ) sc k v = (scopeAssign σ sc k v).map (wb β) := by
   induction sc with
   | nil => rfl
@@ -503,7 +618,7 @@ theorem scopeAssign_wb (β : Addr → List Stmt) (σ : State) (sc : List Addr) (
       simp only []
       cases scopeLookup k m <;> simp [set_wb_scope]
 
-theorem good_scopeAssign {β : Addr → List Stmt} {σ σ' : State} {sc : List Addr} {k : List Char} {v : SVal} (hg : Good β σ)
+theorem good_scopeAssign {β : Repl} {σ σ' : State} {sc : List Addr} {k : List Char} {v : SVal} (hg : Good β σ)
     (h : scopeAssign σ sc k v = some σ') : Good β σ' := by
   induction sc with
   | nil => simp [scopeAssign] at h
@@ -520,7 +635,7 @@ theorem good_scopeAssign {β : Addr → List Stmt} {σ σ' : State} {sc : List A
         cases h
         exact good_set_scope _ _ hg
 
-theorem bindNextName_comm {β : Addr → List Stmt} (n : Nat) (sc : List Addr) (names : List (List Char)) (name : List Char) (loc : Loc)
+theorem bindNextName_comm {β : Repl} (n : Nat) (sc : List Addr) (names : List (List Char)) (name : List Char) (loc : Loc)
     (rhs : SVal) (op : Option (BinaryOp × Loc)) (decl : Bool) {σ : State} (hg : Good β σ) :
     Comm β (bindNextName n (wb β σ) sc names name loc rhs op decl) (bindNextName n σ sc names name loc rhs op decl) := by
   have hstore : ∀ (v : SVal) (σ1 : State), Good β σ1 →
@@ -579,36 +694,67 @@ theorem bindNextName_comm {β : Addr → List Stmt} (n : Nat) (sc : List Addr) (
             | timeout => exact Comm.of_eq rfl trivial
 
 /-- from an exact-fuel commutation fact to `Ev` -/
-theorem Ev.of_comm {α} {β : Addr → List Stmt} {f : Nat → State → Res α} {σ : State} (n : Nat)
+theorem Ev.of_comm {α} {β : Repl} {f : Nat → State → Res α} {σ : State} (n : Nat)
     (hmono : ∀ k, Res.Le (f k σ) (f (k + 1) σ)) (h : ∀ m, Comm β (f m (wb β σ)) (f m σ)) :
     Ev (f n σ) (fun m => f m (wb β σ)) :=
   Ev.of_exact n hmono (fun m => (h m).1) (fun m => (h m).2)
 
-theorem applyBinOp_ev {β : Addr → List Stmt} (n : Nat) (op : BinaryOp) (loc : Loc) (a b : Val) {σ : State} (hg : Good β σ) :
+theorem applyBinOp_ev {β : Repl} (n : Nat) (op : BinaryOp) (loc : Loc) (a b : Val) {σ : State} (hg : Good β σ) :
     Ev (applyBinOp n σ op loc a b) (fun m => applyBinOp m (wb β σ) op loc a b) :=
   Ev.of_comm (f := fun k s => applyBinOp k s op loc a b) n (fun k => applyBinOp_mono k σ op loc a b)
     (fun m => applyBinOp_comm m op loc a b hg)
 
-theorem callBuiltin_ev {β : Addr → List Stmt} (n : Nat) (f : BuiltinId) (this : Option SVal) (args : List SVal) {σ : State}
+theorem callBuiltin_ev {β : Repl} (n : Nat) (f : BuiltinId) (this : Option SVal) (args : List SVal) {σ : State}
     (hg : Good β σ) : Ev (callBuiltin n σ f this args) (fun m => callBuiltin m (wb β σ) f this args) :=
   Ev.of_comm (f := fun k s => callBuiltin k s f this args) n (fun k => callBuiltin_mono k σ f this args)
     (fun m => callBuiltin_comm m f this args hg)
 
-theorem opAssignValue_ev {β : Addr → List Stmt} (n : Nat) (cur rhs : SVal) (op : Option (BinaryOp × Loc)) {σ : State}
+theorem opAssignValue_ev {β : Repl} (n : Nat) (cur rhs : SVal) (op : Option (BinaryOp × Loc)) {σ : State}
     (hg : Good β σ) : Ev (opAssignValue n σ cur rhs op) (fun m => opAssignValue m (wb β σ) cur rhs op) :=
   Ev.of_comm (f := fun k s => opAssignValue k s cur rhs op) n (fun k => opAssignValue_mono k σ cur rhs op)
     (fun m => opAssignValue_comm m cur rhs op hg)
 
-theorem validateArgsRes_ev {β : Addr → List Stmt} (n : Nat) (args : List Expr) {σ : State} (hg : Good β σ) :
-    Ev (validateArgsRes n args σ) (fun m => validateArgsRes m args (wb β σ)) :=
-  Ev.of_comm (f := fun k s => validateArgsRes k args s) n (fun k => validateArgsRes_mono k args σ)
-    (fun m => validateArgsRes_comm m args hg)
+theorem validateArgsRes_ev {β : Repl} (n : Nat) {args args' : List Expr} (ha : RExprs args args') {σ : State} (hg : Good β σ) :
+    Ev (validateArgsRes n args σ) (fun m => validateArgsRes m args' (wb β σ)) := by
+  intro hne
+  refine ⟨β, (validateArgsRes_comm n ha hg).2, n, fun m hm => ?_⟩
+  show validateArgsRes m args' (wb β σ) = _
+  rw [(validateArgsRes_comm m ha hg).1,
+    fuel_stable (f := fun k => validateArgsRes k args σ) (fun k => validateArgsRes_mono k args σ) rfl hne hm]
 
-theorem bindNextName_ev {β : Addr → List Stmt} (n : Nat) (sc : List Addr) (names : List (List Char)) (name : List Char) (loc : Loc)
+theorem bindNextName_ev {β : Repl} (n : Nat) (sc : List Addr) (names : List (List Char)) (name : List Char) (loc : Loc)
     (rhs : SVal) (op : Option (BinaryOp × Loc)) (decl : Bool) {σ : State} (hg : Good β σ) :
     Ev (bindNextName n σ sc names name loc rhs op decl) (fun m => bindNextName m (wb β σ) sc names name loc rhs op decl) :=
   Ev.of_comm (f := fun k s => bindNextName k s sc names name loc rhs op decl) n
     (fun k => bindNextName_mono k σ sc names name loc rhs op decl)
     (fun m => bindNextName_comm m sc names name loc rhs op decl hg)
+
+/-! ### bindings (`evalBlock`, `declareAll`): related patterns, the same values -/
+
+inductive RBinds : List (Expr × SVal) → List (Expr × SVal) → Prop
+  | nil : RBinds [] []
+  | cons {e e' : Expr} (v : SVal) {r r' : List (Expr × SVal)} : RExpr e e' → RBinds r r' → RBinds ((e, v) :: r) ((e', v) :: r')
+
+theorem RBinds.refl : (l : List (Expr × SVal)) → RBinds l l
+  | [] => .nil
+  | (e, v) :: r => .cons v (RExpr.refl e) (RBinds.refl r)
+
+theorem RBinds.zip : ∀ {es es' : List Expr}, RExprs es es' → ∀ (vs : List SVal), RBinds (es.zip vs) (es'.zip vs) := by
+  intro es
+  induction es with
+  | nil => intro es' h vs; cases h; exact .nil
+  | cons e r ih =>
+    intro es' h vs
+    cases h with
+    | cons he hr =>
+      cases vs with
+      | nil => exact .nil
+      | cons v vs => exact .cons v he (ih hr vs)
+
+theorem RBinds.append : ∀ {a a' b b' : List (Expr × SVal)}, RBinds a a' → RBinds b b' → RBinds (a ++ b) (a' ++ b') := by
+  intro a
+  induction a with
+  | nil => intro a' b b' h1 h2; cases h1; exact h2
+  | cons e r ih => intro a' b b' h1 h2; cases h1 with | cons v he hr => exact .cons v he (ih hr h2)
 
 end Seed.C01
